@@ -44,6 +44,9 @@ CHECKS = {
  "C06": ("other", "Non-interference obligations, discharged on every run: the transitive field-type closure of LinkValidator<T,C> (about 15 local types) contains no Arc/Rc/Mutex/RwLock/RefCell/Cell/atomic/raw pointer/non-static borrow - only the statistics Sender, its own input Receiver, &'static configuration and allow-listed owned std types; every static is an immutable OnceLock and validator-role functions reference only the two configuration cells; the dispatch id is the packet's own fee_id()/link_id(), the channel index is the id's position in `processors`, both vectors are pushed pairwise on all paths and have no other writers, the dispatch kind is FEE ID exactly for its-stave; every packet is sent exactly once, unchanged, and the validator consumes its queue in FIFO order; layer/stave extractors and both layer-stave match predicates use the documented masks. Given Rust's ownership rules this is close to a proof of the property; external crate types are allow-listed by reading, not analysed.",
          "Trusted: rustc type checker (ownership/Send rules), /verif/driver ADT tables, fpv; the allow-list of external types in fpv/rules/c06.py.",
          "type-closure scan over ADT tables + who-may-write / provenance rules on MIR + THIR normal forms for the masks", "DESIGN.md §3 C06"),
+ "C12": ("other", "Constants and structure of the payload cutter and agreement of its consumers: the 0xFF run is counted from the end, byte-exact, error iff longer than 15; the format probe inspects bytes 10..16 for all-zero (6 bytes) giving 16-byte slots, else 10-byte words; the padding is cut iff longer than 9 with length len-padding; chunk sizes 16/10 are the chunks_exact arguments per format arm; preprocess_payload runs padding check, probe, chunking in order on the same payload; each of the 3 consumers takes [..10] of every chunk and applies no skipping/reordering iterator adaptor; on the padding error exactly one Error is sent at the RDH offset, the FSM is reset on every normal path and no word is checked. Does not decide payloads whose layout disagrees with the header's data format.",
+         "Trusted: rustc nightly front end, /verif/driver, fpv; oracles/payload_cut.json.",
+         "THIR/MIR constant-in-role extraction + adaptor who-may-call + path rules on the error arm", "DESIGN.md §3 C12"),
 }
 
 NOT_APPLICABLE = {
